@@ -460,6 +460,19 @@ func (x *extractor) call(c *ast.CallExpr, en *env) []S {
 			}
 			for _, f := range facts {
 				fi := x.fieldOf(c.Pos(), f.field)
+				if f.field == "paramCount" {
+					zero := src(f.rhs) == "0"
+					if id, isID := f.rhs.(*ast.Ident); isID {
+						for i, pn := range params {
+							if pn == id.Name && src(c.Args[i]) == "0" {
+								zero = true
+							}
+						}
+					}
+					if !zero {
+						fatalf(c.Pos(), "paramCount of a pooled context is assigned something other than the literal 0: %s", src(c))
+					}
+				}
 				if f.field == "Response" && en.w != "" {
 					okW := false
 					if id, isID := f.rhs.(*ast.Ident); isID {
@@ -700,7 +713,30 @@ func (x *extractor) loop(n ast.Stmt, body S, en *env) []S {
 	case hasRet || hasBranch:
 		fatalf(n.Pos(), "loop with context events and return/break/continue")
 	}
-	return []S{sIte{x.atom(n, en, "loop"), mkSeq([]S{sEv{"Ev.loopBegin"}, body, sEv{"Ev.loopEnd"}}), sSkip{}}}
+	// one marker pair per context mentioned in the body
+	ids := map[int]bool{}
+	visit(body, func(s S) {
+		if q, ok := s.(sEv); ok {
+			var k, y int
+			for _, f := range []string{"Ev.use %d %d", "Ev.assign %d %d", "Ev.reset %d"} {
+				if n, _ := fmt.Sscanf(q.term, f, &k, &y); n >= 1 {
+					ids[k] = true
+					break
+				}
+			}
+		}
+	})
+	var ks []int
+	for k := range ids {
+		ks = append(ks, k)
+	}
+	sort.Ints(ks)
+	var pre, post []S
+	for _, k := range ks {
+		pre = append(pre, sEv{fmt.Sprintf("Ev.loopBegin %d", k)})
+		post = append([]S{sEv{fmt.Sprintf("Ev.loopEnd %d", k)}}, post...)
+	}
+	return []S{sIte{x.atom(n, en, "loop"), mkSeq(append(append(pre, body), post...)), sSkip{}}}
 }
 
 func (x *extractor) declStmt(v *ast.DeclStmt, en *env) []S {
@@ -804,6 +840,9 @@ func (x *extractor) assign(v *ast.AssignStmt, en *env) []S {
 		case *ast.SelectorExpr:
 			if k, ok := x.ctxOf(lv.X, en); ok {
 				fi := x.fieldOf(v.Pos(), lv.Sel.Name)
+				if lv.Sel.Name == "paramCount" && !(len(v.Rhs) == len(v.Lhs) && src(v.Rhs[i]) == "0") {
+					fatalf(v.Pos(), "paramCount of a pooled context is assigned something other than the literal 0: %s", src(v))
+				}
 				if lv.Sel.Name == "Response" && en.w != "" && !(len(v.Rhs) == len(v.Lhs) && isIdent(v.Rhs[i], en.w)) {
 					out = append(out, x.obsRaw("Response set to something other than the tracked writer"))
 				}
@@ -1008,6 +1047,28 @@ func genServe(p *pkg, fields []string) string {
 		b.WriteString(d + "\n")
 	}
 	b.WriteString("def serveHTTP : Stmt :=\n  scope (" + body.lean("  ") + ")\n\n")
+	// other exported entry points that borrow a pooled context
+	var others []string
+	for _, name := range []string{"RouteExists"} {
+		d := p.methods["Router"][name]
+		if d == nil {
+			continue
+		}
+		oe := &env{fn: name, recv: recvName(d), ctx: map[string]int{}, prov: map[string]label{}}
+		nd := len(x.defs)
+		ob := x.block(d.Body.List, oe)
+		for _, df := range x.defs[nd:] {
+			b.WriteString(df + "\n")
+		}
+		ln := strings.ToLower(name[:1]) + name[1:]
+		b.WriteString("def " + ln + " : Stmt :=\n  scope (" + ob.lean("  ") + ")\n\n")
+		others = append(others, ln)
+	}
+	b.WriteString("/-- every extracted entry point -/\ndef entryPoints : List Stmt := [serveHTTP" )
+	for _, o := range others {
+		b.WriteString(", " + o)
+	}
+	b.WriteString("]\n\n")
 	fmt.Fprintf(&b, "def atomCount : Nat := %d\n\n", len(x.atoms))
 	fmt.Fprintf(&b, "/-- context ids (one per `%s()` occurrence and inlining) -/\ndef ctxIds : List Nat := %s\n\n", poolGet, natList(len(x.ctxIDs)))
 	b.WriteString("def ctxIdSrc : List (Nat × String) := " + strTable(x.ctxIDs) + "\n\n")
